@@ -920,3 +920,103 @@ From Interval Require Import Tactic.
 Lemma half_diagonal_constants :
   0.8660254037 < sqrt 3 / 2 < 0.8660254038 /\ 0.7071067811 < sqrt 2 / 2 < 0.7071067812.
 Proof. split; split; interval. Qed.
+
+(* ================================================================== the original comparison >= *)
+(* isEmpty as it was before fix 1b3e70c: prune when |f(centre)| >= hdiag.  Over the reals there is a
+   1-Lipschitz field (the union of the circle circumscribed about one finest square with a second
+   circle covering its two upper corners) for which that renderer emits nothing although the
+   evaluation of the cell emits the segment along its lower side. *)
+Definition quad_empty_ge {O : Ops} (res : T O) (fv : pt2 -> T O) (m : nat) (v : pt2) : bool :=
+  oleb O (hdiag2 res (S m)) (oabs O (fv (quad_centre m v))).
+Definition quadtree_ge {O : Ops} (origin : V2 O) (res : T O) (fv : pt2 -> T O) (m : nat) (v : pt2) : list (V2 O * V2 O) :=
+  process quad_children (quad_empty_ge res fv) (quad_cell origin res fv) m v.
+
+Lemma Rmin_lip2 (g h : RV2 -> R) : lip2 g -> lip2 h -> lip2 (fun p => Rmin (g p) (h p)).
+Proof.
+  intros Lg Lh p q. specialize (Lg p q). specialize (Lh p q). apply Rabs_le_inv in Lg, Lh. apply Rabs_le.
+  unfold Rmin. destruct (Rle_dec (g p) (h p)), (Rle_dec (g q) (h q)); lra.
+Qed.
+
+(* a square whose two lower corners have value 0 and whose two upper corners have the same value
+   w <= -epsilon: msToLines returns the lower side *)
+Lemma lower_side_segment (p : N -> RV2) (val : N -> R) w :
+  val 0%N = 0 -> val 1%N = 0 -> val 2%N = w -> val 3%N = w -> w <= - @eps ROps -> p 0%N <> p 1%N ->
+  @ms_to_lines ROps p val 0 = [(p 0%N, p 1%N)].
+Proof.
+  intros V0 V1 V2 V3 Hw Hp. pose proof eps_pos as E.
+  assert (M : sq_edge_mask 12 = 10%N) by (vm_compute; reflexivity).
+  assert (Lr : local_lines 12 = [(3%N, 1%N)]) by (vm_compute; reflexivity).
+  assert (P3 : sq_pair_of 3 = (3%N, 0%N)) by (vm_compute; reflexivity).
+  assert (P1 : sq_pair_of 1 = (1%N, 2%N)) by (vm_compute; reflexivity).
+  unfold ms_to_lines, ms_index. rsimp. rewrite V0, V1, V2, V3.
+  assert (B0 : Rltb 0 0 = false) by (apply Rltb_false; lra).
+  assert (Bw : Rltb w 0 = true) by (apply Rltb_true; lra).
+  rewrite B0, Bw. change (sq_of_bools false false true true) with 12%N. rewrite M, Lr.
+  change ((10 =? 0)%N) with false. cbn [map].
+  unfold ms_point. rewrite M. change (N.testbit 10 3) with true. change (N.testbit 10 1) with true.
+  rewrite P3, P1, V0, V1, V2, V3.
+  assert (C0 : Rltb (Rabs (0 - 0)) (@eps ROps) = true) by (apply Rltb_true; rewrite Rminus_0_r, Rabs_R0; exact E).
+  assert (Cw : Rltb (Rabs (0 - w)) (@eps ROps) = false) by (apply Rltb_false; rewrite Rminus_0_l, Rabs_Ropp, Rabs_left1 by lra; lra).
+  unfold ms_interpolate, interp_pick. rsimp. rewrite C0, Cw. cbn [andb negb].
+  cbn [filter]. unfold line2_degenerate. cbn [fst snd]. rewrite (proj2 tol_zero).
+  change (o0 ROps) with 0. rewrite v2_equals_zero.
+  destruct (v2_eqbR (p 0%N) (p 1%N)) eqn:Q; [apply v2_eqbR_ok in Q; contradiction | reflexivity].
+Qed.
+
+Definition tie_field (p : RV2) : R := Rmin (dist2 p (mkV2 1 1) - sqrt 2) (dist2 p (mkV2 1 3) - 2).
+
+Lemma dist2_val (a b c d s : R) : 0 <= s -> (a - c) * (a - c) + (b - d) * (b - d) = s * s -> dist2 (mkV2 a b) (mkV2 c d) = s.
+Proof. intros Hs H. unfold dist2, len2, NormR.sub2. cbn [vx vy]. rewrite H. now apply sqrt_square. Qed.
+
+Theorem ge_variant_loses_segment :
+  lip2 tie_field /\
+  @quadtree_ge ROps (mkV2 0 0) 1 (fv2 (mkV2 0 0) 1 tie_field) 0 (0, 0)%Z = [] /\
+  @quad_uniform ROps (mkV2 0 0) 1 (fv2 (mkV2 0 0) 1 tie_field) 0 (0, 0)%Z = [(mkV2 0 0, mkV2 2 0)].
+Proof.
+  pose proof (sqrt_pos 2) as S2. pose proof sqrt2_sq as Q2. pose proof (sqrt_pos 10) as S10.
+  assert (Q10 : sqrt 10 * sqrt 10 = 10) by (apply sqrt_sqrt; lra).
+  assert (B2 : 1 < sqrt 2 < 3 / 2) by (split; nra). assert (B10 : 3 < sqrt 10) by nra.
+  split; [apply Rmin_lip2; apply circle_lip2|]. split.
+  - unfold quadtree_ge. cbn [process]. unfold quad_empty_ge. rewrite hdiag2_R by lra.
+    unfold fv2, quad_centre, quad_point, addp2, pow2. cbn [fst snd vx vy Z.of_nat Z.pow Z.pow_pos Pos.iter Z.mul Pos.mul Z.add]. rsimp.
+    replace (0 + 1 * 1) with 1 by ring. unfold tie_field.
+    rewrite (dist2_val 1 1 1 1 0) by lra. rewrite (dist2_val 1 1 1 3 2) by lra.
+    assert (Em : Rmin (0 - sqrt 2) (2 - 2) = - sqrt 2) by (unfold Rmin; destruct (Rle_dec (0 - sqrt 2) (2 - 2)); lra).
+    rewrite Em, Rabs_Ropp, Rabs_pos_eq by lra.
+    match goal with |- (if Rleb ?a ?b then _ else _) = _ => assert (Le : Rleb a b = true) end.
+    { apply Rleb_true. change (IZR (Z.pow_pos 2 (Pos.of_succ_nat 0))) with 2. lra. }
+    now rewrite Le.
+  - unfold quad_uniform. cbn [quad_leaves leaves flat_map]. rewrite app_nil_r. unfold quad_cell.
+    set (P := fun c : N => @quad_point ROps (mkV2 0 0) 1 (quad_corner (0, 0)%Z c)).
+    set (V := fun c : N => fv2 (mkV2 0 0) 1 tie_field (quad_corner (0, 0)%Z c)).
+    assert (P0 : P 0%N = mkV2 0 0) by (unfold P, quad_point, quad_corner, addp2, scalep2; cbn [sq_corner_off fst snd Z.mul Z.add vx vy]; rsimp; f_equal; lra).
+    assert (P1 : P 1%N = mkV2 2 0) by (unfold P, quad_point, quad_corner, addp2, scalep2; cbn [sq_corner_off fst snd Z.mul Z.add Pos.mul vx vy]; rsimp; f_equal; lra).
+    assert (P2 : P 2%N = mkV2 2 2) by (unfold P, quad_point, quad_corner, addp2, scalep2; cbn [sq_corner_off fst snd Z.mul Z.add Pos.mul vx vy]; rsimp; f_equal; lra).
+    assert (P3 : P 3%N = mkV2 0 2) by (unfold P, quad_point, quad_corner, addp2, scalep2; cbn [sq_corner_off fst snd Z.mul Z.add Pos.mul vx vy]; rsimp; f_equal; lra).
+    assert (V0 : V 0%N = 0).
+    { unfold V, fv2. fold (P 0%N). rewrite P0. unfold tie_field.
+      rewrite (dist2_val 0 0 1 1 (sqrt 2)) by lra. rewrite (dist2_val 0 0 1 3 (sqrt 10)) by lra.
+      unfold Rmin; destruct (Rle_dec (sqrt 2 - sqrt 2) (sqrt 10 - 2)); lra. }
+    assert (V1 : V 1%N = 0).
+    { unfold V, fv2. fold (P 1%N). rewrite P1. unfold tie_field.
+      rewrite (dist2_val 2 0 1 1 (sqrt 2)) by lra. rewrite (dist2_val 2 0 1 3 (sqrt 10)) by lra.
+      unfold Rmin; destruct (Rle_dec (sqrt 2 - sqrt 2) (sqrt 10 - 2)); lra. }
+    assert (V2 : V 2%N = sqrt 2 - 2).
+    { unfold V, fv2. fold (P 2%N). rewrite P2. unfold tie_field.
+      rewrite (dist2_val 2 2 1 1 (sqrt 2)) by lra. rewrite (dist2_val 2 2 1 3 (sqrt 2)) by lra.
+      unfold Rmin; destruct (Rle_dec (sqrt 2 - sqrt 2) (sqrt 2 - 2)); lra. }
+    assert (V3 : V 3%N = sqrt 2 - 2).
+    { unfold V, fv2. fold (P 3%N). rewrite P3. unfold tie_field.
+      rewrite (dist2_val 0 2 1 1 (sqrt 2)) by lra. rewrite (dist2_val 0 2 1 3 (sqrt 2)) by lra.
+      unfold Rmin; destruct (Rle_dec (sqrt 2 - sqrt 2) (sqrt 2 - 2)); lra. }
+    change (@ms_to_lines ROps P V 0 = [(mkV2 0 0, mkV2 2 0)]).
+    rewrite (lower_side_segment P V (sqrt 2 - 2) V0 V1 V2 V3).
+    + now rewrite P0, P1.
+    + assert (Ee : @eps ROps <= 1 / 2).
+      { unfold eps, cst. rsimp. apply (Rmult_le_reg_r (IZR epsilon_den)); [apply IZR_lt; vm_compute; reflexivity|].
+        unfold Rdiv. rewrite Rmult_assoc, Rinv_l by (apply not_0_IZR; vm_compute; discriminate).
+        rewrite Rmult_1_r. replace (1 * / 2 * IZR epsilon_den) with (IZR epsilon_den / 2) by (unfold Rdiv; ring).
+        assert (X : IZR epsilon_num * 2 <= IZR epsilon_den) by (rewrite <- mult_IZR; apply IZR_le; vm_compute; discriminate). lra. }
+      lra.
+    + rewrite P0, P1. intros X. injection X as X. lra.
+Qed.
